@@ -7,10 +7,10 @@ namespace LyModel.Diff
 open LyModel LyModel.Tree
 
 /-- the reversed diff of an exact diff takes the result of the diff back (up to `normN`) -/
-theorem reverse_roundtrip {S : Schema} (K : KeyOrder S) {A D : List DNode} (hA : goodT S A = true)
+theorem reverse_roundtrip {S : Schema} {fx : Fixes} (K : KeyOrder S) {A D : List DNode} (hA : goodT S A = true)
     (hD : exactDiff S A D = true) :
-    ∃ B R A', apply S A D = .ok B ∧ goodT S B = true ∧ reverse S D = .ok R ∧ heightL R = heightL D ∧
-      apply S B R = .ok A' ∧ normL A' = normL A := by
+    ∃ B R A', apply S A D fx = .ok B ∧ goodT S B = true ∧ reverse S D = .ok R ∧ heightL R = heightL D ∧
+      apply S B R fx = .ok A' ∧ normL A' = normL A := by
   obtain ⟨R, hR, hRh, _, _, B, hB, hgB, hkB, hloc1, hback⟩ :=
     listRev K D (heightL D + 1) false none A false (Nat.le_succ _) hA hD
   have hdk : dk S false D = D := by simp [dk]
